@@ -97,9 +97,11 @@ type lexprIn struct {
 }
 
 type partIn struct {
-	T    string `json:"t"` // pattern: lit | cap; template: lit | label | line | upper | fail
+	T    string `json:"t"` // pattern: lit | cap; template: lit | label | line | upper | fail | lower | trimspace | trunc | replace | alignleft | alignright | default | repeat
 	S    Ints   `json:"s"`
 	Name Ints   `json:"name"`
+	N    int    `json:"n,omitempty"` // trunc / alignleft / alignright / repeat
+	B2   Ints   `json:"b,omitempty"` // replace: the replacement
 }
 
 type renameIn struct {
@@ -237,6 +239,22 @@ func tmplText(parts []partIn) string {
 			sb.WriteString("{{." + S(p.Name) + " | ToUpper}}")
 		case "fail":
 			sb.WriteString("{{index ." + S(p.Name) + " 99}}")
+		case "lower":
+			sb.WriteString("{{." + S(p.Name) + " | lower}}")
+		case "trimspace":
+			sb.WriteString("{{." + S(p.Name) + " | TrimSpace}}")
+		case "trunc":
+			sb.WriteString(fmt.Sprintf("{{.%s | trunc %d}}", S(p.Name), p.N))
+		case "replace":
+			sb.WriteString(fmt.Sprintf("{{.%s | replace \"%s\" \"%s\"}}", S(p.Name), S(p.S), S(p.B2)))
+		case "alignleft":
+			sb.WriteString(fmt.Sprintf("{{alignLeft %d .%s}}", p.N, S(p.Name)))
+		case "alignright":
+			sb.WriteString(fmt.Sprintf("{{alignRight %d .%s}}", p.N, S(p.Name)))
+		case "default":
+			sb.WriteString(fmt.Sprintf("{{.%s | default \"%s\"}}", S(p.Name), S(p.S)))
+		case "repeat":
+			sb.WriteString(fmt.Sprintf("{{.%s | repeat %d}}", S(p.Name), p.N))
 		}
 	}
 	return sb.String()
